@@ -172,7 +172,7 @@ def check(ctx):
         v = json.load(open(ctx.replay))
         tx = [v["input"]["text"]]
     else:
-        n = 1500 if ctx.thorough else 300
+        n = 4500 if ctx.thorough else 300
         ps = progs.gen_programs(ctx, n)
         valid = [t for p in ps for t in p["mods"].values()]
         tx = list(valid)
@@ -253,7 +253,7 @@ def check(ctx):
             ctx.sample({"text": t[:120], "lex_errors": r["lex_errors"][:3], "tokens": len(r["tokens"])})
     # diagnostic spans of the whole pipeline
     if not ctx.replay:
-        cand = [{"mods": {"file:///w/main.oal": t}, "main": "file:///w/main.oal"} for t in tx[: (3000 if ctx.thorough else 900)]]
+        cand = [{"mods": {"file:///w/main.oal": t}, "main": "file:///w/main.oal"} for t in tx[: (9000 if ctx.thorough else 900)]]
         res = progs.compile_many(cand)
         for c, r in zip(cand, res):
             ctx.cov["evaluations"] += 1
